@@ -33,7 +33,10 @@ def main():
     if args.replay:
       mod.replay(out, args.replay, model_ok=model_ok)
     else:
-      mod.run(out, tier=('thorough' if intensify else args.tier), model_ok=model_ok)
+      # the quick tier is deepened (where a module supports it), never replaced by the much longer thorough tier:
+      # a registered check must stay bounded in time
+      kw = {'deepen': True} if (intensify and getattr(mod, 'SUPPORTS_DEEPEN', False)) else {}
+      mod.run(out, tier=args.tier, model_ok=model_ok, **kw)
   except core.DriverError as e:
     out.mismatch('driver', None, 'model driver failed: ' + str(e)[-300:])
   except subprocess_timeout() as e:  # pragma: no cover
